@@ -12,6 +12,7 @@ def parseOp (c : Char) : Option Op :=
   else if c == 'd' then some .dup
   else if c == 'c' then some .clone
   else if c == 'x' then some .drop
+  else if c == 'f' then some .dupFail
   else none
 
 def parseProg (s : String) : Option (List Op) :=
@@ -30,6 +31,7 @@ def showRes : Res → String
   | .getNone => "g-"
   | .dupOk n => "Dd" ++ toString (n + 1)
   | .dupTaken => "d-"
+  | .dupErr => "dE"
   | .cloned => "c"
   | .dropped => "x"
 
@@ -37,9 +39,10 @@ def showRes : Res → String
 def label (th : Thread) : String :=
   match th.pc with
   | .idle => if th.finished then "F" else "S"
-  | .takeLoad | .getLoad | .dupLoad | .dropLoad _ => "L"
+  | .takeLoad | .getLoad | .dupLoad | .dupLoadF | .dropLoad _ => "L"
   | .takeCas _ | .dropCas _ _ => "X"
   | .dupSys v => "D" ++ fdName v
+  | .dupSysF v => "D" ++ fdName v
   | .dupClose n => "Cd" ++ toString (n + 1)
   | .dropClose _ v => "C" ++ fdName v
   | .innerDrop _ => "I"
@@ -47,6 +50,7 @@ def label (th : Thread) : String :=
 
 def showSys : Nat × Act → String
   | (t, .dupSys v n) => toString t ++ ":dup:" ++ fdName v ++ ">d" ++ toString (n + 1)
+  | (t, .dupSysFail v) => toString t ++ ":dup:" ++ fdName v ++ ">err"
   | (t, .close (.num v)) => toString t ++ ":close:" ++ fdName v
   | (t, .close (.dupd n)) => toString t ++ ":close:d" ++ toString (n + 1)
   | _ => "?"
